@@ -119,7 +119,8 @@ def upper_bound(t, depth=0):
             return ua + ub
         if op in ("Mul", "MulUnchecked", "MulWithOverflow") and ua is not None and ub is not None:
             return ua * ub
-        if op in ("Sub", "SubUnchecked", "SubWithOverflow") and ua is not None:
+        if op in ("SubUnchecked", "SubWithOverflow") and ua is not None:
+            # plain `Sub` is excluded: with overflow checks off it wraps, so a - b is not bounded by a
             return ua
         if op in ("Lt", "Le", "Gt", "Ge", "Eq", "Ne"):
             return 1
@@ -354,6 +355,105 @@ def implies_le(cond, pol, end, length):
     return False
 
 
+
+def _peel_refs(t):
+    while isinstance(t, tuple) and t and t[0] in ("ref", "deref"):
+        t = t[2] if t[0] == "ref" else t[1]
+    return t
+
+
+def _const_bitrange(F, t):
+    """(start, end) if t is (a reference to / copy of) a BitRange-typed constant"""
+    t = _peel_refs(t)
+    if isinstance(t, tuple) and t and t[0] == "promoted":
+        t = _peel_refs(t[1])
+    if isinstance(t, tuple) and t and t[0] == "const" and len(t) > 3 and str(t[3]).endswith("::BitRange"):
+        v = t[2]
+        if isinstance(v, str) and v.startswith("0x") and len(v) == 34:
+            b = bytes.fromhex(v[2:])
+            return int.from_bytes(b[:8], "little"), int.from_bytes(b[8:], "little")
+    return None
+
+
+def _bitrange_index(F, s, base):
+    """array[CONST_BITRANGE.aligned_byte_range()/containing_byte_range()] on a fixed-size array"""
+    n = _ty_len(s.call.selfty) if s.call.selfty else None
+    if n is None:
+        n = const_len(base)
+    ix = s.body.origin(s.ops[1])
+    if n is None or ix[0] != "call" or not re.search(r"::BitRange::(aligned_byte_range|containing_byte_range)$", ix[1]) or len(ix[2]) != 1:
+        return None
+    br = _const_bitrange(F, ix[2][0])
+    if br is None:
+        return None
+    lo, hi = br[0] // 8, -(-br[1] // 8)
+    if lo <= hi <= n:
+        return "constant BitRange %d..%d bits = bytes %d..%d within array length %d" % (br[0], br[1], lo, hi, n)
+    return None
+
+
+def _is_len_of(t, base):
+    t = strip_casts(t)
+    b = _peel_refs(base)
+    if t[0] == "call" and re.search(r"(<impl \[T\]>|Vec::<T, A>|<impl str>)::len$", t[1]) and len(t[2]) == 1:
+        return _peel_refs(t[2][0]) == b
+    if t[0] == "un" and t[1] == "PtrMetadata":
+        return _peel_refs(t[2]) == b
+    return False
+
+
+def _guarded_range_index(body, s, base):
+    """s[x..] / s[..x] / s[a..x] where a dominating comparison implies x <= s.len()
+    (for a..x additionally a is a constant 0 or the same guard form holds for a <= x is not
+    attempted: only RangeFrom and RangeTo are discharged here)"""
+    ix = body.origin(s.ops[1])
+    if not (ix[0] == "agg" and ix[1][0] == "adt" and re.search(r"::(RangeFrom|RangeTo)$", ix[1][1]) and len(ix[2]) == 1):
+        return None
+    x = ix[2][0]
+    for g, cond, pol in _cmp_guards(body, s.bb):
+        c, p = cond, pol
+        while c[0] == "un" and c[1] == "Not":
+            c, p = c[2], not p
+        if c[0] != "bin":
+            continue
+        for ln in (c[2], c[3]):
+            if _is_len_of(ln, base) and implies_le(c, p, x, ln):
+                return "guard %s (%s edge) at bb%d implies bound <= len" % (fmt(cond, 100), pol, g)
+    return None
+
+
+def _len_relative_range(body, s, base):
+    return None
+
+
+def _fresh_arrayvec_push(F, s):
+    """push onto an ArrayVec that is freshly constructed (new/default) in this body: safe when the
+    number of push sites on that same fresh vector is within the constant capacity and none of them
+    lies on a CFG cycle (this is what the array_vec!/tiny_vec! macros expand to)."""
+    body = s.body
+    recv = _peel_refs(body.origin(s.ops[0]))
+    if not (recv[0] == "call" and re.search(r"ArrayVec(::<A>|<A> as core::default::Default>)::(new|default)$", recv[1]) and not recv[2]):
+        return None
+    cap = None
+    m = re.search(r"ArrayVec<\[.*; (\d+)\]>$", str(recv[4]) if len(recv) > 4 else "")
+    if m:
+        cap = int(m.group(1))
+    if cap is None:
+        return None
+    sites = []
+    for c in body.calls:
+        if c.decl and c.decl.endswith("ArrayVec::<A>::push") and c.bb in body.live_blocks():
+            r = _peel_refs(body.origin(c.args[0]))
+            if r == recv:
+                sites.append(c.bb)
+    if not sites or len(sites) > cap:
+        return None
+    for b in sites:
+        if b in body.reach(list(body.succ[b])):
+            return None
+    return "%d push site(s), none in a loop, onto a fresh ArrayVec of capacity %d" % (len(sites), cap)
+
+
 def auto_discharge(F, s, cfg):
     """returns reason string or None"""
     body = s.body
@@ -391,8 +491,18 @@ def auto_discharge(F, s, cfg):
             s.sig = "%s(divisor %s)" % (s.kind, fmt(d, 120))
             s.toks = tokens(d)
         return None
+    if s.cls == "arith" and s.call is not None and re.search(r"::(div_ceil|next_multiple_of|div_euclid|rem_euclid)$", s.call.decl) \
+            and len(s.ops) == 2 and re.search(r"<impl u(8|16|32|64|128|size)>", s.call.decl):
+        # unsigned: the only panic is a zero divisor (div_ceil cannot overflow; next_multiple_of can, so it is excluded below)
+        d = body.origin(s.ops[1])
+        if not s.call.decl.endswith("next_multiple_of") and d[0] in ("lit", "const") and isinstance(upper_bound(d), int) and upper_bound(d) != 0:
+            return "constant non-zero divisor %d" % upper_bound(d)
+        return None
     if s.cls == "index" and s.call is not None and re.search(r"::(index|index_mut)$", s.call.decl) and len(s.ops) == 2:
         base = body.origin(s.ops[0])
+        why = _bitrange_index(F, s, base) or _guarded_range_index(body, s, base) or _len_relative_range(body, s, base)
+        if why:
+            return why
         n = _ty_len(s.call.selfty) if s.call.selfty else None
         if n is None:
             n = const_len(base)
@@ -402,6 +512,10 @@ def auto_discharge(F, s, cfg):
                 return "constant range %d..%d within length %d" % (rb[1], rb[2], n)
             if rb[0] == "from" and rb[1] is not None and rb[1] <= n:
                 return "constant range %d.. within length %d" % (rb[1], n)
+    if s.cls == "index" and s.call is not None and s.call.decl.endswith("ArrayVec::<A>::push"):
+        why = _fresh_arrayvec_push(F, s)
+        if why:
+            return why
     if s.cls == "index" and s.call is not None and s.call.decl.endswith("::copy_from_slice") and len(s.ops) == 2:
         a, b = const_len(body.origin(s.ops[0])), const_len(body.origin(s.ops[1]))
         if a is not None and a == b:
@@ -509,7 +623,7 @@ def check_entries(F, R, pid, entries, cfg, stop=None, classes=None, label=None):
     for m in missing:
         R.anchor_missing("PANIC entry %s" % m)
     entries = [e for e in entries if F.has_body(e)]
-    parent = F.reachable(entries, stop=stop)
+    parent = F.reachable_ctx(entries, stop=stop)
     fns = [f for f in parent if F.has_body(f) and not T.is_test_support(f)]
     table = load_table()
     used_entries = set()
